@@ -4,6 +4,7 @@
 
 mod mock;
 mod session;
+mod wire;
 
 use std::sync::atomic::{AtomicUsize, Ordering};
 
@@ -26,6 +27,7 @@ fn main() {
     let rest = &args[2..];
     let code = match args[1].as_str() {
         "session" => session::main(rest),
+        "wire" => wire::main(rest),
         other => {
             eprintln!("unknown subcommand {other}");
             2
